@@ -120,6 +120,19 @@ def cquot(a, b):
     return q if (a >= 0) == (b >= 0) else -q
 
 
+def branch_vals_whole(fn, m, whole):
+    """the values of the join variables at the end of a branch, arrays of `whole` as complete lists"""
+    def f():
+        out = []
+        for x in m:
+            if x in whole:
+                out.append(fn.array_value(x))
+            else:
+                out.append(lit(fn.consts[x]) if x in fn.consts else x)
+        return fn.tup(out)
+    return f
+
+
 class Fn:
     """one C function.  Constants are propagated and folded while translating (a variable whose
     value is a known integer is replaced by it; a condition that folds to a constant selects its
@@ -428,6 +441,23 @@ class Fn:
                     acc.add(self.lval_name(n["inner"][1]))
             except Unsupported:
                 pass
+            try:
+                fname_ = self.lval_name(n["inner"][0])
+            except Unsupported:
+                fname_ = None
+            if fname_ == "memcpy":
+                try:
+                    acc.add(self.pointee(n["inner"][1])[0])
+                except Unsupported:
+                    acc.add("@unknown")
+            if fname_ in INLINE or fname_ in globals().get("API_INLINE", {}):
+                # the writes an inlined body makes through its pointer parameters
+                for a in n["inner"][1:]:
+                    if ctype(a).endswith("*"):
+                        try:
+                            acc.add(self.pointee(a)[0])
+                        except Unsupported:
+                            acc.add("@unknown")
             try:
                 d = self.dep_call(n)
                 if d is not None:
@@ -759,12 +789,52 @@ class Fn:
             if els is not None:
                 self.assigned(els, m)
             m -= self.declared(then, set()) | (self.declared(els, set()) if els is not None else set())
+            if "@unknown" in m:
+                raise Unsupported("a conditional writes through a pointer the translator cannot name")
             m = sorted(m)
             saved = dict(self.consts)
-            t = self.S([then], lambda: self.vals(m))
+            saved_elems = {a: set(b) for a, b in self.elems.items()}
+            saved_ptrs = dict(self.ptrs)
+            whole = set()      # arrays whose elements live in scalars at the end of a branch: joined as whole lists
+
+            def branch_vals():
+                out = []
+                for x in m:
+                    if self.elems.get(x):
+                        whole.add(x)
+                        out.append(self.array_value(x))
+                    else:
+                        out.append(lit(self.consts[x]) if x in self.consts else x)
+                return self.tup(out)
+            t = self.S([then], branch_vals)
+            moved = self.ptrs != saved_ptrs
+            self.ptrs = dict(saved_ptrs)
             self.consts = dict(saved)
-            e = self.S([els], lambda: self.vals(m)) if els is not None else self.vals(m)
+            self.elems = {a: set(b) for a, b in saved_elems.items()}
+            e = self.S([els], branch_vals) if els is not None else branch_vals()
+            moved = moved or self.ptrs != saved_ptrs
+            self.ptrs = dict(saved_ptrs)
+            if moved:
+                raise Unsupported("a pointer is moved inside a conditional")
             self.consts = saved
+            self.elems = saved_elems
+            if whole:
+                # a branch wrote an element that had been replaced by a scalar: redo both branches with the same
+                # shape (whole lists), then forget the scalars - later reads go to the joined list
+                self.consts = dict(saved)
+                t = self.S([then], branch_vals_whole(self, m, whole))
+                self.consts = dict(saved)
+                self.elems = {a: set(b) for a, b in saved_elems.items()}
+                e = self.S([els], branch_vals_whole(self, m, whole)) if els is not None else branch_vals_whole(self, m, whole)()
+                self.consts = saved
+                self.elems = saved_elems
+                for x in whole:
+                    for i in list(self.elems.get(x, ())):
+                        self.consts.pop("%s_%d" % (x, i), None)
+                    if x in self.arr_len:
+                        for i in range(self.arr_len[x]):
+                            self.consts.pop("%s_%d" % (x, i), None)
+                    self.elems[x] = set()
             for x in m:
                 self.consts.pop(x, None)
             return "let %s := (if %s then (%s) else (%s)) in\n" % (self.pat(m), c, t, e) + self.S(rest, k)
@@ -799,6 +869,15 @@ class Fn:
                     self.assigned(s, m)
                 m -= self.declared(body, set())
                 m = sorted(m)
+                pre_ = ""
+                for x in m:
+                    if self.elems.get(x):
+                        pre_ += "let %s : list Z := %s in\n" % (x, self.array_value(x))
+                        for i in list(self.elems[x]):
+                            self.consts.pop("%s_%d" % (x, i), None)
+                        self.elems[x] = set()
+                if pre_:
+                    return pre_ + iterate(count)
                 init_vals = self.vals(m)
                 for x in m:
                     self.consts.pop(x, None)
@@ -1850,6 +1929,13 @@ class ApiFn(Fn):
                 acc.add("ev")
                 if dm in ("u8_nfc", "u8_nfkd"):
                     acc.add(self.arg_base(n["inner"][2]))
+                if dm == "randbytes":
+                    try:
+                        acc.add(self.pointee(n["inner"][1])[0])
+                    except Unsupported:
+                        acc.add("@unknown")
+                if dm == "pbkdf2_sha256":
+                    acc.add(self.arg_base(n["inner"][6]))
             else:
                 try:
                     f = self.lval_name(n["inner"][0])
